@@ -48,21 +48,7 @@ def run(ctx):
     ctx.step(common.lock_order, ctx, "C20.selflock", scope_pred=lambda f: common.in_files(f, FILES), floor=20)
 
 
-def is_user_call(f, st):
-    """call of a functor parameter / std::function object / user predicate"""
-    if st["k"] == "CXXOperatorCallExpr" and st.get("op") == "()" and st["args"]:
-        a0 = f.s(st["args"][0])
-        p = path(f, a0)
-        t = (a0 or {}).get("t", "")
-        if p and (p.startswith("p:") or "std::function<" in t):
-            return True
-        if "std::function<" in t:
-            return True
-    if st["k"] == "CXXMemberCallExpr" and (st.get("callee") or {}).get("name") == "operator()":
-        o = f.s(st["obj"])
-        if o is not None and "std::function<" in o.get("t", ""):
-            return True
-    return False
+is_user_call = common.is_user_call
 
 
 def user_calls(ctx):
@@ -95,37 +81,7 @@ def user_calls(ctx):
 
 
 def noexcept_user(ctx):
-    """a library function that is noexcept for the instantiated payload must not let an exception of user code reach
-    its boundary (std::terminate instead of 'propagates as documented')"""
-    rid = "C20.noexcept-user"
-    ctx.rule(rid, "functions that are noexcept in this instantiation contain no potentially-throwing call outside a "
-             "non-rethrowing catch-all (a throwing payload operation would terminate the process)", floor=20)
-    for f in ctx.fb.functions():
-        if not common.in_files(f, FILES) or not f.noexcept or f.defaulted or f.kind == "dtor":
-            continue
-        bad = None
-        protected = set()
-        for t in [s_ for s_ in f.stmts.values() if s_["k"] == "CXXTryStmt"]:
-            hs = [f.s(h) for h in t["handlers"]]
-            if any(h.get("all") for h in hs) and not any(d["k"] == "CXXThrowExpr" for h in hs for d in f.descendants(h)):
-                protected |= {d["id"] for d in f.descendants(f.s(t["try"]))}
-        for st in f.stmts.values():
-            if st["id"] in protected:
-                continue
-            c = st.get("callee") if st["k"] in CALLS or st["k"] in CTORS else None
-            if not c:
-                continue
-            if c.get("noexcept") or c.get("fq") in ("std::move", "std::forward"):
-                continue
-            if st["k"] in CTORS and (c.get("defaulted") or st.get("t", "").startswith("std::chrono::") or not st["args"]):
-                continue
-            # only user code counts: functor calls, and operations on the payload type of the instantiation
-            sig = " ".join([c.get("qname", "")] + c.get("params", []))
-            if not (is_user_call(f, st) or "vdrv::" in sig):
-                continue
-            bad = "%s at %s may throw" % (c.get("qname", "?")[:80], f.loc(st))
-            break
-        ctx.ob(rid, bad is None, f.where, "noexcept %s cannot be left by an exception" % f.name, bad or "", fn=f.label, inst=f.qname)
+    common.noexcept_user(ctx, "C20.noexcept-user", FILES, floor=20)
 
 
 REPLACERS = ["gmlc::libguarded::guarded", "gmlc::libguarded::guarded_opt", "gmlc::libguarded::ordered_guarded",
